@@ -161,7 +161,7 @@ Fixpoint write_loop (fuel : nat) (buf : bytes) (count : N) (st : wstate) : res w
           let buf1 := if to_write =? 0 then buf else skipn (N.to_nat to_write) buf in
           let count1 := if to_write =? 0 then count else count - to_write in
           (* assert(lybctx->siblings[u].written <= LYB_SIZE_MAX) *)
-          if existsb (fun s => SIZE_MAX <? written s) (w_sibs st1) then Err E_ASSERT
+          if negb (to_write =? 0) && existsb (fun s => SIZE_MAX <? written s) (w_sibs st1) then Err E_ASSERT
           else
           match full with
           | None => write_loop fuel' buf1 count1 st1
@@ -265,7 +265,7 @@ Fixpoint read_loop (fuel : nat) (count : N) (st : rstate) : res (bytes * rstate)
               let sibs1 := if to_read =? 0 then r_sibs st else map (sub_written to_read) (r_sibs st) in
               let count1 := if to_read =? 0 then count else count - to_read in
               (* assert(lybctx->siblings[u].written <= LYB_SIZE_MAX) *)
-              if existsb (fun s => SIZE_MAX <? written s) sibs1 && negb (to_read =? 0) then Err E_ASSERT
+              if negb (to_read =? 0) && existsb (fun s => SIZE_MAX <? written s) sibs1 then Err E_ASSERT
               else
               match empty with
               | None =>
@@ -341,8 +341,13 @@ Definition lyb_run_read : list rop -> bytes -> res (list bytes * rstate) :=
 Definition lyb_run_write_small (mx : N) : list op -> res wstate := run_write mx 2 65535 2 4.
 Definition lyb_run_read_small (mx : N) : list rop -> bytes -> res (list bytes * rstate) := run_read mx 2 2 4.
 
-(* fixed pattern used by the drivers for long payloads: byte i of Wn<count> *)
-Definition pattern_byte (i : N) : N := (i * 7 + i / 251 + 1) mod 256.
-Fixpoint pattern_from (n : nat) (i : N) (acc : bytes) : bytes :=
-  match n with O => acc | S n' => pattern_from n' (i - 1) (pattern_byte (i - 1) :: acc) end.
-Definition pattern (n : N) : bytes := pattern_from (N.to_nat n) n [].
+(* fixed pattern used by the drivers for long payloads: byte i of Wn<count> is
+   (i * 7 + i / 251 + 1) mod 256, computed incrementally (v = the byte, r = i mod 251) *)
+Fixpoint pattern_go (n : nat) (v r : N) (acc : bytes) : bytes :=
+  match n with
+  | O => acc
+  | S n' =>
+      let v1 := if r =? 250 then v + 8 else v + 7 in
+      pattern_go n' (if 256 <=? v1 then v1 - 256 else v1) (if r =? 250 then 0 else r + 1) (v :: acc)
+  end.
+Definition pattern (n : N) : bytes := rev_append (pattern_go (N.to_nat n) 1 0 []) [].
